@@ -338,15 +338,14 @@ impl<'a, S: GraphSnapshot + 'a> Iterator for MatchOutVarLenIter<'a, S> {
                             }
                         }
 
+                        // A self loop is an incoming relationship of its node like any other
+                        // (only the undirected case below must not follow it twice).
                         (RelationshipDirection::RightToLeft, Some(rels)) => {
                             for rel in rels {
                                 for edge in self
                                     .snapshot
                                     .incoming_neighbors_erased(current_node, Some(*rel))
                                 {
-                                    if edge.src == edge.dst {
-                                        continue;
-                                    }
                                     push_edge(edge, edge.src, &mut self.stack);
                                 }
                             }
@@ -354,9 +353,6 @@ impl<'a, S: GraphSnapshot + 'a> Iterator for MatchOutVarLenIter<'a, S> {
                         (RelationshipDirection::RightToLeft, None) => {
                             for edge in self.snapshot.incoming_neighbors_erased(current_node, None)
                             {
-                                if edge.src == edge.dst {
-                                    continue;
-                                }
                                 push_edge(edge, edge.src, &mut self.stack);
                             }
                         }
